@@ -1,7 +1,26 @@
-/- placeholder driver for C01: replaced when the model is built -/
-import AcnModel.Wire
-open Lean Acn.Wire
+/-
+  Driver for C01 (and the generic whole-simulation driver): a scenario in, the full observable
+  trajectory of `Sim.run` out (request / result format: `AcnModel/WireSim.lean`).
+  Optional field "resume": a second scheduler; when the first run aborts with an error the run is
+  continued from the failed state with that scheduler (crash/resume scenarios), and the answer
+  carries both results ("first", then the top-level fields for the resumed run).
+-/
+import AcnModel.WireSim
+open Lean Acn Acn.Wire Acn.EventCore Acn.Sim
 
-def handle (_ : Json) : Except String Json := throw "driver for C01 not built yet"
+def handle (j : Json) : Except String Json := do
+  let cfg ← parseSimCfg j
+  let sched ← parseSched (← j.getObjVal? "sched")
+  let fuel := fuelFor cfg.core
+  let r := Sim.run cfg sched fuel (Sim.init cfg)
+  match j.getObjVal? "resume" with
+  | .error _ => pure (jResult cfg r)
+  | .ok rj =>
+    match r.2 with
+    | none => pure (jResult cfg r)
+    | some _ =>
+      let sched2 ← parseSched rj
+      let r2 := Sim.run cfg sched2 fuel r.1
+      pure ((jResult cfg r2).setObjVal! "first" (jResult cfg r))
 
 def main : IO Unit := runDriver handle
